@@ -358,7 +358,7 @@ def parse_log(text):
         parts = line.split()
         if not parts:
             continue
-        if parts[0] in ("begin", "end", "early"):
+        if parts[0] in ("begin", "end", "early", "late"):
             rows.append(dict(i=i, who="P", kind=parts[0], tag=int(parts[1]), pid=int(parts[2]),
                              res=parts[3] if len(parts) > 3 else None))
         else:
@@ -390,7 +390,7 @@ def extract(rows, markers, slot_of, job_of_tag, runs):
 
     for r in rows:
         if r["who"] == "P":
-            if r["kind"] == "early":
+            if r["kind"] in ("early", "late"):
                 continue
             if r["tag"] not in job_of_tag:
                 continue
